@@ -1,5 +1,237 @@
-/- C20 — property theorems only. -/
+/-
+C20 — numeric helpers of `odc/geo/math.py` meet their documented contracts.
+
+Property theorems only (helpers are in `Lemmas/C20.lean`).  Everything is over exact
+rationals; IEEE rounding is outside the model (see DESIGN.md §3.1).
+-/
 import OdcGeo.Model.C20
+import OdcGeo.Lemmas.C20
+import OdcGeo.Lemmas.C20b
+import OdcGeo.Props.C17
+
 namespace OdcGeo.C20
+
+/-! ## `split_float` -/
+
+/-- The whole part is an integer, whole + fraction = `x`, and the fraction lies in
+`[-1/2, 1/2]` (with `fmod`'s truncation semantics: `2.5 ↦ (2, 0.5)`, `-2.5 ↦ (-2, -0.5)`). -/
+theorem split_float_sum_range_whole (x : Rat) :
+    (∃ k : Int, (splitFloat x).1 = (k : Rat)) ∧ (splitFloat x).1 + (splitFloat x).2 = x ∧
+      -(1 / 2) ≤ (splitFloat x).2 ∧ (splitFloat x).2 ≤ 1 / 2 :=
+  splitFloat_spec x
+
+/-- Non-finite inputs are passed through with a zero fraction. -/
+theorem split_float_nonfinite (x : XF) (h : ∀ q, x ≠ .fin q) : splitFloatX x = (x, .fin 0) := by
+  cases x with
+  | fin q => exact absurd rfl (h q)
+  | pinf => rfl
+  | ninf => rfl
+  | nan => rfl
+
+/-! ## `maybe_int`, `is_almost_int` -/
+
+/-- `maybe_int` replaces `x` by an `int` exactly when `is_almost_int` says yes. -/
+theorem maybe_int_iff_is_almost_int (x tol : Rat) :
+    (maybeInt? x tol).isSome = isAlmostInt x tol := (isAlmostInt_eq x tol).symm
+
+/-- …and both agree with the tolerance: "some integer is closer than `tol`". -/
+theorem is_almost_int_iff (x tol : Rat) : isAlmostInt x tol = true ↔ ∃ n : Int, |x - n| < tol := by
+  rw [isAlmostInt_eq]; exact maybeInt?_isSome_iff x tol
+
+/-- The integer returned is within `tol` of `x` and is a nearest integer. -/
+theorem maybe_int_snapped {x tol : Rat} {k : Int} (h : maybeInt? x tol = some k) :
+    maybeInt x tol = k ∧ |x - k| < tol ∧ ∀ n : Int, |x - k| ≤ |x - n| := by
+  obtain ⟨_, h1, h2⟩ := maybeInt?_some h
+  refine ⟨maybeInt_of_some h, h1, fun n => ?_⟩
+  by_cases hn : n = k
+  · rw [hn]
+  · have h3 : (1 : Rat) ≤ |(k : Rat) - n| := by
+      have : (1 : Int) ≤ |k - n| := Int.one_le_abs (by omega)
+      have : ((1 : Int) : Rat) ≤ ((|k - n| : Int) : Rat) := by exact_mod_cast this
+      simpa using this
+    have h4 : |(k : Rat) - n| ≤ |x - n| + |x - k| := by
+      have : (k : Rat) - n = (x - n) - (x - k) := by ring
+      rw [this]; exact abs_sub _ _
+    linarith
+
+/-- Values that are not close to an integer pass through unmodified. -/
+theorem maybe_int_unsnapped {x tol : Rat} (h : maybeInt? x tol = none) :
+    maybeInt x tol = x ∧ ∀ n : Int, tol ≤ |x - n| :=
+  ⟨maybeInt_of_none h, maybeInt?_none h⟩
+
+/-- `maybe_int` / `is_almost_int` on non-finite input: passed through / `False`. -/
+theorem maybe_int_nonfinite (x : XF) (tol : Rat) (h : ∀ q, x ≠ .fin q) :
+    maybeIntX x tol = .inr x ∧ isAlmostIntX x tol = false := by
+  cases x with
+  | fin q => exact absurd rfl (h q)
+  | pinf => exact ⟨rfl, rfl⟩
+  | ninf => exact ⟨rfl, rfl⟩
+  | nan => exact ⟨rfl, rfl⟩
+
+/-! ## `snap_scale` -/
+
+/-- The result is `s` itself, or an integer within `tol` of `s`, or `1/k` for a non-zero
+integer `k` within `tol` of `1/s`. -/
+theorem snap_scale_within_tol {s tol r : Rat} (h : snapScale s tol = .ok r) :
+    r = s ∨ (∃ k : Int, r = k ∧ |s - k| < tol) ∨
+      (∃ k : Int, k ≠ 0 ∧ s ≠ 0 ∧ r = 1 / (k : Rat) ∧ |1 / s - k| < tol) :=
+  snapScale_cases h
+
+/-- With a positive tolerance `snap_scale` never divides by zero. -/
+theorem snap_scale_total (s : Rat) {tol : Rat} (ht : 0 < tol) : ∃ r, snapScale s tol = .ok r :=
+  snapScale_total s ht
+
+/-- Snapping twice is the same as snapping once (every `s`, every `tol`). -/
+theorem snap_scale_idem {s tol r : Rat} (h : snapScale s tol = .ok r) : snapScale r tol = .ok r :=
+  snapScale_idem h
+
+/-! ## integer alignment -/
+
+/-- `align_down`, `align_up` (Python floor-mod, negative `x` included): proved in C17, restated
+here because the statement of C20 lists them. -/
+theorem align_down_spec (x a : Int) (ha : 0 < a) :
+    a ∣ C17.alignDown x a ∧ C17.alignDown x a ≤ x ∧ x - C17.alignDown x a < a :=
+  C17.align_down_spec x a ha
+
+theorem align_up_spec (x a : Int) (ha : 0 < a) :
+    a ∣ C17.alignUp x a ∧ x ≤ C17.alignUp x a ∧ C17.alignUp x a - x < a :=
+  C17.align_up_spec x a ha
+
+/-- `align_up_pow2(x)` is the least power of two `≥ x` (for `x ≥ 1`; `log2` exact). -/
+theorem align_up_pow2_least (x : Int) (hx : 1 ≤ x) :
+    ∃ n : Nat, alignUpPow2 x = 2 ^ n ∧ x ≤ 2 ^ n ∧ ∀ m : Nat, x ≤ 2 ^ m → (2 : Int) ^ n ≤ 2 ^ m :=
+  alignUpPow2_least x hx
+
+/-- `align_down_pow2(x)` is the greatest power of two `≤ x` (for `x ≥ 1`). -/
+theorem align_down_pow2_greatest (x : Int) (hx : 1 ≤ x) :
+    ∃ n : Nat, alignDownPow2 x = 2 ^ n ∧ (2 : Int) ^ n ≤ x ∧ ∀ m : Nat, (2 : Int) ^ m ≤ x → (2 : Int) ^ m ≤ 2 ^ n :=
+  alignDownPow2_greatest x hx
+
+/-- For `x ≤ 0` the code returns `1` / `0` (no power of two is `≤ x`). -/
+theorem align_pow2_nonpos (x : Int) (hx : x ≤ 0) : alignUpPow2 x = 1 ∧ alignDownPow2 x = 0 := by
+  have h1 : alignUpPow2 x = 1 := by unfold alignUpPow2; rw [if_pos hx]
+  refine ⟨h1, ?_⟩
+  unfold alignDownPow2
+  simp only [h1]
+  rw [if_pos (by omega)]
+  rfl
+
+/-! ## one-axis grid snapping (`snap_grid`, `_snap_edge`, `_snap_edge_pos`)
+
+`gridLo` / `gridHi` are the lower / upper world edge of the returned 1-d grid
+(`tx`, `tx + nx·res` in the order given by the sign of `res`).
+Hypotheses: `x0 ≤ x1`, `res ≠ 0`, `0 ≤ off < 1`, `0 ≤ tol < 1/2`. -/
+
+/-- The call succeeds and `nx ≥ 1`. -/
+theorem snap_grid_n_pos {x0 x1 res tol : Rat} (off : Option Rat) (hr : res ≠ 0) (hx : x0 ≤ x1)
+    (hop : ∀ op, off = some op → 0 ≤ op ∧ op < 1) (ht : 0 ≤ tol) (ht2 : tol < 1 / 2) :
+    ∃ tx nx, snapGrid x0 x1 res off tol = .ok (tx, nx) ∧ 1 ≤ nx := by
+  cases off with
+  | none =>
+    obtain ⟨n, tx, h, hn, _⟩ := snapGrid_none_spec hr hx ht (tol := tol)
+    exact ⟨tx, n, h, hn⟩
+  | some op =>
+    obtain ⟨i, n, tx, h, hn, _⟩ := snapGrid_some_spec hr hx (hop op rfl) ht ht2
+    exact ⟨tx, n, h, hn⟩
+
+/-- **Cover**: the grid covers `[x0, x1]` except at most `tol·|res|` per side. -/
+theorem snap_grid_cover {x0 x1 res tol tx : Rat} {nx : Int} (off : Option Rat) (hr : res ≠ 0)
+    (hx : x0 ≤ x1) (hop : ∀ op, off = some op → 0 ≤ op ∧ op < 1) (ht : 0 ≤ tol) (ht2 : tol < 1 / 2)
+    (h : snapGrid x0 x1 res off tol = .ok (tx, nx)) :
+    gridLo res tx nx ≤ x0 + tol * |res| ∧ x1 - tol * |res| ≤ gridHi res tx nx := by
+  cases off with
+  | none =>
+    obtain ⟨n, t, h', _, _, h1, h2, _⟩ := snapGrid_none_spec hr hx ht (tol := tol)
+    rw [h] at h'; cases h'; exact ⟨h1, h2⟩
+  | some op =>
+    obtain ⟨i, n, t, h', _, _, _, h1, _, h2, _⟩ := snapGrid_some_spec hr hx (hop op rfl) ht ht2
+    rw [h] at h'; cases h'; exact ⟨h1, h2⟩
+
+/-- **Minimal**: the grid exceeds the interval by less than one pixel (plus `tol`) per side.
+The strict bound needs `0 < tol ∨ x0 < x1`: a zero-width interval sitting exactly on a pixel
+edge with `tol = 0` still gets one whole pixel (`nx ≥ 1`), see `snap_grid_minimal_le` and
+`snap_grid_minimal_degenerate`. -/
+theorem snap_grid_minimal {x0 x1 res tol tx : Rat} {nx : Int} (off : Option Rat) (hr : res ≠ 0)
+    (hx : x0 ≤ x1) (hop : ∀ op, off = some op → 0 ≤ op ∧ op < 1) (ht : 0 ≤ tol) (ht2 : tol < 1 / 2)
+    (hs : 0 < tol ∨ x0 < x1)
+    (h : snapGrid x0 x1 res off tol = .ok (tx, nx)) :
+    x0 - gridLo res tx nx < |res| * (1 + tol) ∧ gridHi res tx nx - x1 < |res| * (1 + tol) := by
+  have hpos : 0 < |res| := abs_pos.mpr hr
+  cases off with
+  | none =>
+    obtain ⟨n, t, h', _, _, _, _, _, _, h3⟩ := snapGrid_none_spec hr hx ht (tol := tol)
+    rw [h] at h'; cases h'; exact h3 hs
+  | some op =>
+    obtain ⟨i, n, t, h', _, _, _, _, h1, _, _, h3⟩ := snapGrid_some_spec hr hx (hop op rfl) ht ht2
+    rw [h] at h'; cases h'
+    exact ⟨by nlinarith, h3 hs⟩
+
+/-- Non-strict version, no side condition. -/
+theorem snap_grid_minimal_le {x0 x1 res tol tx : Rat} {nx : Int} (off : Option Rat) (hr : res ≠ 0)
+    (hx : x0 ≤ x1) (hop : ∀ op, off = some op → 0 ≤ op ∧ op < 1) (ht : 0 ≤ tol) (ht2 : tol < 1 / 2)
+    (h : snapGrid x0 x1 res off tol = .ok (tx, nx)) :
+    x0 - gridLo res tx nx ≤ |res| * (1 + tol) ∧ gridHi res tx nx - x1 ≤ |res| * (1 + tol) := by
+  have hpos : 0 < |res| := abs_pos.mpr hr
+  cases off with
+  | none =>
+    obtain ⟨n, t, h', _, _, _, _, h1, h2, _⟩ := snapGrid_none_spec hr hx ht (tol := tol)
+    rw [h] at h'; cases h'; exact ⟨h1, h2⟩
+  | some op =>
+    obtain ⟨i, n, t, h', _, _, _, _, h1, _, h2, _⟩ := snapGrid_some_spec hr hx (hop op rfl) ht ht2
+    rw [h] at h'; cases h'
+    exact ⟨by nlinarith, h2⟩
+
+/-- The excluded point of `snap_grid_minimal`: `x0 = x1 = 2`, `res = 1`, `tol = 0` gives the pixel
+`[2, 3]`, exactly one pixel beyond `x1` (replayed on the real code by the harness). -/
+theorem snap_grid_minimal_degenerate :
+    snapGrid 2 2 1 (some 0) 0 = .ok (2, 1) ∧ gridHi 1 2 1 - 2 = |(1 : Rat)| * (1 + 0) := by
+  constructor
+  · decide +kernel
+  · simp [gridHi]
+
+/-- **Aligned**: the pixel edges are offset from the origin by exactly the requested
+fraction of a pixel: `(lo − off·|res|)/|res|` and `(hi − off·|res|)/|res|` are integers. -/
+theorem snap_grid_aligned {x0 x1 res tol tx op : Rat} {nx : Int} (hr : res ≠ 0)
+    (hx : x0 ≤ x1) (hop : 0 ≤ op ∧ op < 1) (ht : 0 ≤ tol) (ht2 : tol < 1 / 2)
+    (h : snapGrid x0 x1 res (some op) tol = .ok (tx, nx)) :
+    ∃ i : Int, (gridLo res tx nx - op * |res|) / |res| = i ∧
+      (gridHi res tx nx - op * |res|) / |res| = ((i + nx : Int) : Rat) := by
+  have hpos : 0 < |res| := abs_pos.mpr hr
+  obtain ⟨i, n, t, h', _, h1, h2, _⟩ := snapGrid_some_spec hr hx hop ht ht2
+  rw [h] at h'; cases h'
+  refine ⟨i, ?_, ?_⟩
+  · rw [h1]; field_simp; ring
+  · rw [h2]; push_cast; field_simp; ring
+
+/-- **Not snapping**: with `off_pix = None` the origin is `x0` (`res > 0`) / `x1` (`res < 0`). -/
+theorem snap_grid_none_exact {x0 x1 res tol tx : Rat} {nx : Int} (hr : res ≠ 0) (hx : x0 ≤ x1)
+    (ht : 0 ≤ tol) (h : snapGrid x0 x1 res none tol = .ok (tx, nx)) :
+    tx = if 0 < res then x0 else x1 := by
+  obtain ⟨n, t, h', _, h1, _⟩ := snapGrid_none_spec hr hx ht (tol := tol)
+  rw [h] at h'; cases h'; exact h1
+
+/-- What the code rejects: a zero resolution, an inverted interval (when snapping), an
+anchor fraction outside `[0, 1)`. -/
+theorem snap_grid_rejects (x0 x1 res tol : Rat) :
+    snapGrid x0 x1 0 none tol = .error .zeroDiv ∧
+    (∀ op, 0 ≤ op ∧ op < 1 → snapGrid x0 x1 0 (some op) tol = .error .assertion) ∧
+    (∀ op, ¬ (0 ≤ op ∧ op < 1) → snapGrid x0 x1 res (some op) tol = .error .assertion) ∧
+    (∀ op, 0 ≤ op ∧ op < 1 → x1 < x0 → snapGrid x0 x1 res (some op) tol = .error .assertion) := by
+  refine ⟨?_, ?_, ?_, ?_⟩
+  · simp [snapGrid]
+  · intro op hop
+    unfold snapGrid; simp only; rw [if_neg (not_not.mpr hop)]
+    have : ¬ (x1 - op * rabs 0 ≥ x0 - op * rabs 0) ∨ (x1 - op * rabs 0 ≥ x0 - op * rabs 0) := by
+      exact (em _).symm
+    rcases this with hh | hh
+    · simp [snapEdge, hh]
+    · simp [snapEdge, snapEdgePos, hh]
+  · intro op hop
+    unfold snapGrid; simp only; rw [if_pos hop]
+  · intro op hop hlt
+    unfold snapGrid; simp only; rw [if_neg (not_not.mpr hop)]
+    have : ¬ (x1 - op * rabs res ≥ x0 - op * rabs res) := by
+      rw [ge_iff_le, not_le]; linarith
+    simp [snapEdge, this]
 
 end OdcGeo.C20
